@@ -341,6 +341,24 @@ def to_src(node, ctx='alt'):
 
 
 # ---- parser: pattern source -> AST (the supported syntax only; raises ValueError otherwise) ----
+def _count_capturing(src):
+    """Number of capturing groups in a pattern source (escapes and classes skipped)."""
+    n, i, in_class = 0, 0, False
+    while i < len(src):
+        c = src[i]
+        if c == "\\":
+            i += 2
+            continue
+        if in_class:
+            in_class = c != "]"
+        elif c == "[":
+            in_class = True
+        elif c == "(" and src[i + 1:i + 2] != "?":
+            n += 1
+        i += 1
+    return n
+
+
 def parse(src):
     pos = [0]
     ngroups = [0]
@@ -416,6 +434,13 @@ def parse(src):
             if e in "dDwWsS":
                 return quantified(("esc", e))
             if e.isdigit() and e != "0":
+                # DecimalEscape: all following digits belong to the number; it is a back-reference when the pattern has
+                # that many groups in total (anything else is a legacy octal escape, which the generators do not produce)
+                while peek() is not None and peek().isdigit():
+                    e += eat()
+                total = _count_capturing(src)
+                if int(e) > total:
+                    raise ValueError("\\%s with only %d groups in %r (legacy octal escapes are not modelled)" % (e, total, src))
                 return quantified(("backref", int(e)))
             if e == "n":
                 return quantified(("char", "\n"))
